@@ -64,6 +64,9 @@ both('agg_then_clause', ['relation g(i32, i32, i32)', 'relation k(i32)', 'relati
 both('expr_cols', ['relation foo(i32, i32)', 'relation bar(i32, i32)', 'relation both2(i32, i32)'],
      ['both2(x, y) <-- foo(x, x + 1), bar(y, y + 1)', 'both2(x, y) <-- foo(x, x + 1), bar(y, y + 1), foo(y, y - 1)', 'both2(x, y) <-- foo(x, x), bar(y, y), foo(x, x + 0)'],
      tags=['repeated'])
+# an expression argument that uses a variable of its own clause inside a macro invocation
+both('macro_arg', ['relation baz(i32, Vec<i32>)', 'relation r(i32)', 'relation k(i32)'],
+     ['r(x) <-- baz(x, vec![*x])', 'r(x) <-- k(y), baz(x, vec![*x + *y, *y])', 'r(y) <-- k(y), baz(_, vec![*y])'], tags=['repeated'])
 both('fresh_names', ['relation foo(i32, i32)', 'relation bar(i32)', 'relation out(i32, i32)'],
      ['out(x, x_) <-- foo(x, x), bar(x_)', 'out(a, a_1) <-- foo(a, a), foo(a, a), bar(a_1)', 'out(w, expr_replaced_) <-- foo(w, w + 1), bar(expr_replaced_)'], tags=['repeated'])
 both('attached_let', ['relation foo(i32, i32)', 'relation bar(i32, i32)', 'relation res(i32, i32)'],
